@@ -159,13 +159,29 @@ def run(P: Program, R: Report, tier: str) -> None:
             req |= {e.value for e in c.args[0].elts}
     csv = P.func_named("export_to_csv")
     hdr = set()
-    for c in ast.walk(csv.node):
-        if isinstance(c, ast.Call) and call_name(c) == "extend" and "header" in norm(c.func.value) and c.args and isinstance(c.args[0], ast.List):
-            hdr |= {e.value for e in c.args[0].elts if isinstance(e, ast.Constant)}
-    R.check(req <= hdr, "R14.5", csv, csv.node, f"the CSV header contains the importer's required keys {sorted(req)}", f"header has {sorted(hdr)}", via="table-agreement")
+    n_lists = 0
+    for g_ in [f_ for f_ in P.functions.values() if f_.module is csv.module]:
+        for c in ast.walk(g_.node):
+            lists = []
+            if isinstance(c, ast.Call) and call_name(c) in ("extend", "append") and "header" in norm(c.func.value) and c.args:
+                lists = [c.args[0]] if isinstance(c.args[0], ast.List) else ([ast.List([c.args[0]], ast.Load())] if isinstance(c.args[0], ast.Constant) else [])
+            if isinstance(c, (ast.Assign, ast.AnnAssign)) and c.value is not None and isinstance(c.value, ast.List) and any(
+                    "header" in norm(t) for t in (c.targets if isinstance(c, ast.Assign) else [c.target])):
+                lists = [c.value]
+            for l_ in lists:
+                n_lists += 1
+                hdr |= {e.value for e in l_.elts if isinstance(e, ast.Constant)}
+    if n_lists == 0:
+        R.undecided("R14.5", csv, csv.node, f"the CSV header contains the importer's required keys {sorted(req)}", "construction of the header not recognised")
+    else:
+        R.check(req <= hdr, "R14.5", csv, csv.node, f"the CSV header contains the importer's required keys {sorted(req)}", f"header has {sorted(hdr)}", via="table-agreement")
     # ---- R14.6 per-key detection
     setup = tracks.methods["_setup_core_computed_features"]
-    loops = [lp for lp in ast.walk(setup.node) if isinstance(lp, ast.For) and isinstance(lp.target, ast.Name) and any(isinstance(c, ast.Call) and call_name(c) == "activate_features" for c in ast.walk(lp))]
+    from ..resolve import Resolver as _Rs14
+
+    rs14 = _Rs14(P, setup)
+    loops = [lp for lp in ast.walk(setup.node) if isinstance(lp, ast.For) and isinstance(lp.target, ast.Name) and any(
+        isinstance(c, ast.Call) and call_name(c) in ("activate_features", "enable_features") for c in ast.walk(lp))]
     ok = False
     for lp in loops:
         k = lp.target.id
@@ -174,6 +190,12 @@ def run(P: Program, R: Report, tier: str) -> None:
             act = any(isinstance(c, ast.Call) and call_name(c) == "activate_features" and norm(c.args[0]) == f"[{k}]" for c in ast.walk(ast.Module(ifs[0].body, [])))
             en = any(isinstance(c, ast.Call) and call_name(c) == "enable_features" and norm(c.args[0]) == f"[{k}]" for c in ast.walk(ast.Module(ifs[0].orelse, [])))
             ok = act and en
+        # the same decision as a flag:  enable_features([k], recompute=not self._check_existing_feature(k))
+        for c in ast.walk(lp):
+            if isinstance(c, ast.Call) and call_name(c) == "enable_features" and c.args and norm(c.args[0]) == f"[{k}]":
+                rc = next((kw.value for kw in c.keywords if kw.arg == "recompute"), None)
+                if rc is not None and rs14.text(rc).replace(" ", "") in (f"notself._check_existing_feature({k})", f"not(self._check_existing_feature({k}))"):
+                    ok = True
     stray = [c for c in ast.walk(setup.node) if isinstance(c, ast.Call) and call_name(c) in ("enable_features", "activate_features", "compute")
              and not any(c in list(ast.walk(lp)) for lp in loops)]
     R.check(not stray, "R14.6", setup, stray[0] if stray else setup.node, "features are switched on only inside the per-key decision loop",
@@ -237,4 +259,4 @@ def missing_mask_passthrough(P: Program, R: Report, rule: str) -> None:
                         if ".all()" in t or "np.all(" in t:
                             R.fail(rule, g, ie, f"{g.short}: the mask is normalised to None only when it flags nothing",
                                    f"`{norm(ie)[:80]}`: a mask that flags some elements is dropped")
-    R.floor(rule, "renamed (values, missing) records", n, 2)
+    R.floor(rule, "renamed (values, missing) records", n, 1)
